@@ -13,7 +13,7 @@ import (
 func init() {
 	Register(&Property{
 		ID: "C05",
-		Explanation: "Decides that the transaction envelope of multi-relationship writes is structurally complete: (R05.1) every write statement of persistence/sql executes inside a function literal passed to a Transaction call; (R05.2) inside such a literal every context argument derives from the literal's own ctx parameter (which carries the transaction), and every statement runs on a connection obtained inside the literal from that ctx -- never on a captured connection or the persister's raw conn; (R05.3) inside such a literal no error is dropped: every non-nil path of every error returned by a call reaches the literal's return; (R05.4) in each write handler the mapping (Mapper().FromTuple) and the storage write happen in the same Transaction literal; (R05.5) a function that performs more than one write operation performs all of them inside one single Transaction literal, and that literal's Transaction call is not inside a loop; (R05.6) a write function iterates its input tuples whole (range, slices.Chunk) or in tiles where each chunk starts where the previous one ended. " +
+		Explanation: "Decides that the transaction envelope of multi-relationship writes is structurally complete: (R05.1) every write statement of persistence/sql executes inside a function literal passed to a Transaction call; (R05.2) inside such a literal every context argument derives from the literal's own ctx parameter (which carries the transaction), and every statement runs on a connection obtained inside the literal from that ctx -- never on a captured connection or the persister's raw conn; (R05.3) inside such a literal no error is dropped: every non-nil path of every error returned by a call reaches the literal's return; (R05.4) in each write handler the mapping (Mapper().FromTuple) and the storage write happen in the same Transaction literal; (R05.5) a function that performs more than one write operation performs all of them inside one single Transaction literal, and that literal's Transaction call is not inside a loop; (R05.8) in the relationship handlers and their helpers the error of every ketoapi decoder or validator escapes on every non-nil path; (R05.7) no case folding in the write handlers and API types (a validation that folds case accepts a delta that the exact filter then drops); (R05.6) a write function iterates its input tuples whole (range, slices.Chunk) or in tiles where each chunk starts where the previous one ended. " +
 			"Not decided: isolation level, popx.Transaction's commit-on-nil / rollback-on-error (trusted), crash behaviour of the database.",
 		Assumptions: []string{
 			"popx.Transaction commits iff the callback returns nil and joins an ambient transaction found in ctx",
@@ -389,6 +389,40 @@ func runC05(c *Ctx) {
 	r.Floor("R05.5", 4, "WriteRelationTuples, DeleteRelationTuples, TransactRelationTuples, MapStringsToUUIDs")
 
 	inputTuplesCovered(c, "R05.6", writeOps)
+	// R05.8 a delta that cannot be decoded or validated fails the whole request: in the write handlers and
+	// their helpers the error of every ketoapi decoder / validator escapes on every non-nil path
+	{
+		var hf []*ssa.Function
+		for _, fn := range p.KetoFuncs("internal/relationtuple") {
+			hf = append(hf, fn)
+		}
+		apiSrc := func(obj *types.Func) bool {
+			return obj.Pkg() != nil && strings.HasSuffix(obj.Pkg().Path(), "/ketoapi") && obj.Type().(*types.Signature).Recv() != nil
+		}
+		pol := core.ErrPolicy{
+			IsSink: func(obj *types.Func, _ *ssa.CallCommon) bool {
+				return obj.Pkg() != nil && obj.Pkg().Path() == herodotPkg && strings.HasPrefix(obj.Name(), "WriteError")
+			},
+			HandledIs: func(ssa.Value) bool { return false },
+		}
+		n8 := 0
+		for _, site := range core.ErrSites(hf, apiSrc) {
+			n8++
+			v := p.CheckErrEscape(site, pol)
+			name := core.FuncName(site.Fn)
+			construct := "error of " + core.ObjName(site.Callee)
+			if v.OK {
+				r.Discharge("R05.8", name, construct, p.Pos(site.Call.Pos()), v.Detail)
+			} else {
+				r.Violate("R05.8", name, construct, p.Pos(v.BadPos), v.Detail+": the request goes on with the deltas decoded so far and reports success for a part of it")
+			}
+		}
+		if n8 < 3 {
+			r.Undecide("R05.8", "", "decoder/validator calls in the write handlers", "", fmt.Sprintf("%d found (floor 3)", n8))
+		}
+	}
+	// R05.7 the validation of a request and the code that applies it compare actions and names the same way
+	noCaseFolding(c, "R05.7", []string{"internal/relationtuple", "ketoapi"})
 }
 
 func sortStrings(in []string) []string {
